@@ -421,8 +421,9 @@ func (w *world) stepEndTxn() {
 	}
 }
 
-// stepReinit: InitProducerID of a live transactional id. With an open
-// transaction the KIP-360 form (current id and epoch) is used, which aborts it.
+// stepReinit: InitProducerID of a live transactional id (a new producer instance
+// taking over, or the KIP-360 form with the current id and epoch). Either way an open
+// transaction is aborted and the epoch is bumped.
 func (w *world) stepReinit() {
 	p := w.pick(true)
 	if p == nil {
@@ -433,9 +434,11 @@ func (w *world) stepReinit() {
 	var pid int64
 	var epoch int16
 	var err error
-	if mp.InTx {
+	if mp.InTx && w.rng.IntN(2) == 0 {
 		code, pid, epoch, err = w.wire(p.old).initPID(w.ctx, p.txid, 60000, p.pid, p.epoch)
 	} else {
+		// a new producer instance taking over the id: fences the old one and
+		// aborts whatever transaction it left open
 		code, pid, epoch, err = w.wire(p.old).initPID(w.ctx, p.txid, 60000, -1, -1)
 	}
 	if err != nil {
